@@ -118,3 +118,15 @@ def parallel_session(rng):
             items.append("%d:%s" % (c, core.hx(payload)))
         lines.append("PAR " + " ".join(items))
     return lines
+
+
+def slow_reader_session(rng, ms):
+    """a client that pipelines large replies and then does not read for `ms` milliseconds while the connection stays open: when it reads
+    on, it must find every reply whole and in order (a server-side write timeout that gives up in the middle of a reply and serves on
+    would splice the next reply into the truncated one)"""
+    big = bytes(rng.choice(b"abcdefgh") for _ in range(64)) * rng.choice([4096, 16384])     # 256 KiB / 1 MiB
+    lines = ["S 16", "C 1 %s" % core.hx(gen.enc_cmd([b"SET", b"big", big]) + gen.enc_cmd([b"RPUSH", b"bl"] + [b"e%03d" % i * 50 for i in range(300)]))]
+    payload = gen.enc_cmd([b"GET", b"big"]) + gen.enc_cmd([b"PING"]) + gen.enc_cmd([b"LRANGE", b"bl", b"0", b"-1"]) + gen.enc_cmd([b"STRLEN", b"big"])
+    lines.append("STALL 1 %d %s" % (ms, core.hx(payload)))
+    lines.append("C 1 %s" % core.hx(gen.enc_cmd([b"GET", b"big"]) + gen.enc_cmd([b"PING"])))
+    return lines
